@@ -926,6 +926,31 @@ def r10_8(ctx):
         ctx.bad("R10.8", mt.module, mt.qual, "<cmd>.mgmt_exception = exc", "when preparing a command fails (message set out of range, resync error) the waiting command is released without the exception: it runs as if admitted - unregistered, and with a stale message set - instead of answering BAD/NO", mt.node.lineno)
 
 
+def r10_9(ctx):
+    """The waiting side of the admission hand-shake (IMAPClientCommand.ready_and_okay): queue the command, wait for `ready`,
+    refuse when the mailbox was deleted meanwhile or the management task handed over a failure (arm-exact), run the body, and
+    mark the command completed on every exit (`finally`) - that is what lets the management task admit the next one."""
+    from .common import pm_of
+
+    p = ctx.p
+    fi = p.func("parse.IMAPClientCommand.ready_and_okay")
+    ctx.analysed(fi)
+    pm = pm_of(p, fi)
+    shape = (
+        "try:\n    mbox.task_queue.put_nowait(self)\n    await self.ready.wait()\n    if mbox.deleted:\n        ...\n        raise NoSuchMailbox(...)\n"
+        "    if self.mgmt_exception is not None:\n        raise self.mgmt_exception\n    yield\nfinally:\n    self.completed = True\n    ..."
+    )
+    if pm.has(shape):
+        ctx.ok("R10.9", where(fi), "queue -> wait for ready -> refuse if deleted / failure handed over -> body -> completed in finally")
+    else:
+        ctx.bad(
+            "R10.9", fi.module, fi.qual, "try: put_nowait; await ready.wait(); if deleted: raise; if mgmt_exception is not None: raise; yield finally: completed = True",
+            "ready_and_okay no longer has the hand-shake shape: a command may run without having been admitted, run on a deleted mailbox, ignore a failure "
+            "the management task handed over (or raise when there is none), or never be marked completed (the mailbox then admits nothing else)",
+            fi.node.lineno,
+        )
+
+
 def run(ctx):
     ctx.do(r10_1)
     ctx.do(r10_2)
@@ -935,6 +960,7 @@ def run(ctx):
     ctx.do(r10_5)
     ctx.do(r10_7)
     ctx.do(r10_8)
+    ctx.do(r10_9)
     from . import c01
     ctx.do(c01.r1_5)
     for k, v in DISJOINT_EDGES.items():
